@@ -182,9 +182,41 @@ func fixStdlib(interp *Interpreter) {
 	interp.mapTypes[p["Scanln"]] = interp.mapTypes[reflect.ValueOf(fmt.Scanln)]
 
 	if p = interp.binPkg["flag"]; p != nil {
-		c := flag.NewFlagSet(os.Args[0], flag.PanicOnError)
+		name := ""
+		if len(interp.args) > 0 {
+			name = interp.args[0]
+		}
+		c := flag.NewFlagSet(name, flag.PanicOnError)
 		c.SetOutput(stderr)
-		p["CommandLine"] = reflect.ValueOf(&c).Elem()
+		cl := reflect.ValueOf(&c).Elem()
+		p["CommandLine"] = cl
+
+		if interp.ownArgs {
+			// The command line is the one passed in Options, not the one of the host process: the
+			// package functions operate on the above flag set and parse the arguments of the interpreter.
+			for name, f := range p {
+				if m := cl.MethodByName(name); f.Kind() != reflect.Func || !m.IsValid() || m.Type() != f.Type() {
+					continue
+				}
+				name := name
+				p[name] = reflect.MakeFunc(f.Type(), func(in []reflect.Value) []reflect.Value {
+					return cl.MethodByName(name).Call(in)
+				})
+			}
+			p["Parse"] = reflect.ValueOf(func() {
+				var args []string
+				if len(interp.args) > 0 {
+					args = interp.args[1:]
+				}
+				_ = c.Parse(args)
+			})
+			usage := func() {
+				fmt.Fprintf(c.Output(), "Usage of %s:\n", c.Name())
+				c.PrintDefaults()
+			}
+			p["Usage"] = reflect.ValueOf(&usage).Elem()
+			c.Usage = func() { usage() }
+		}
 	}
 
 	if p = interp.binPkg["log"]; p != nil {
